@@ -219,6 +219,12 @@ def judge_run(ctx, d, label):
     # (b) the recorded histories, judged by the verified checker
     meta = json.load(open(os.path.join(d, "meta.json")))
     hs, order = parse_hist(os.path.join(d, "hist.tsv"))
+    # well-formedness assumed by the locality theorem (C04_locality): no reply before its invocation
+    for h in order:
+        for o in hs[h]:
+            if o[1] != "-" and int(o[1]) < int(o[0]):
+                log("HARNESS BUG: reply time before invocation time in %s: %s" % (h, o))
+                raise SystemExit(2)
     res = run_checker(ctx, [(h, hs[h]) for h in order], label)
     verdicts = {"lin": 0, "nonlin": 0, "outoffuel": 0, "undecided": 0}
     for h in order:
@@ -282,7 +288,7 @@ def run(ctx):
         raise SystemExit(2)
     vlib.regen_consts(GROUP, CMD)
     proofs_ok, info = ctx.check_proofs(
-        make_targets=["Lin/CheckerProofs.vo", "Lin/ProtocolProofs.vo", "Properties/C04.vo"],
+        make_targets=["Lin/CheckerProofs.vo", "Lin/ProtocolProofs.vo", "Lin/LocalityProofs.vo", "Properties/C04.vo"],
         gate_paths=["Lin", "Properties/C04"])
     mok, mout, _ = vlib.model_build(GROUP)
     if not mok:
@@ -431,7 +437,8 @@ def run(ctx):
     ), assumptions=[
         "system level is SAMPLED, not proved: goroutine interleavings, TCP, process death and restart are exercised by the runs above; "
         "what is proved is (1) both verdicts of the checker that judges them and (2) linearizability of the abstract request-path protocol",
-        "per-key checking relies on locality of linearizability (Herlihy & Wing 1990, Theorem 1), cited, not mechanised",
+        "per-key checking is justified by the mechanised locality theorem C04_locality (well-formedness inv <= ret of every "
+        "recorded operation is asserted on every run)",
         "Protocol.v takes log agreement (C02) and state-machine determinism (C07) as explicit hypotheses",
         "client clocks: one process, Go monotonic clock; equal timestamps are treated as concurrent",
     ])
